@@ -92,3 +92,25 @@ def boundary_programs():
                     out.append("functie f(n) { stel k = 0; zolang %d %s n && k < 3 { k += 1; n = n + 1; }; [k, n] } f(%s)" % (c, op, vl))
                     out.append("functie f(n) { stel k = 0; zolang n %s %d && k < 3 { k += 1; n = n - 1; }; [k, n] } f(%s)" % (op, c, vl))
     return out
+
+
+def signed_fused_programs():
+    """every operator with a LOCAL on one side and an integer LITERAL on the other (the shapes the compiler fuses into one
+    instruction, and their mirrored forms), over SIGNED arguments: negative, zero and positive values around the literal,
+    powers of two and their neighbours, and the ends of the 61-bit range — so that a fast path that is right for
+    non-negative operands only (a mask for `% 2^k`, a shift for `/ 2^k` or `* 2^k`, an unsigned compare) disagrees with
+    the definitional semantics somewhere"""
+    out = []
+    ops = ["<", "<=", ">", ">=", "==", "!=", "+", "-", "*", "/", "%"]
+    big = 2 ** 59
+    consts = (1, 2, 3, 8, 16, big)
+    args = (-(2 ** 60), -big - 1, -17, -9, -8, -3, -1, 0, 3, 8, 2 ** 60 - 1)
+
+    def lit(v):
+        return str(v) if v >= 0 else "(0 - %d)" % -v if v > -(2 ** 60) else "(0 - %d - 1)" % (2 ** 60 - 1)
+    for op in ops:
+        for c in consts:
+            for a in args:
+                out.append("functie f(n) { n %s %d } f(%s)" % (op, c, lit(a)))
+                out.append("functie f(n) { %d %s n } f(%s)" % (c, op, lit(a)))
+    return out
